@@ -67,8 +67,11 @@ CLAIMED = {
              "behind the first definition of the label in the whole script, a false `if ... (` skips to the matching `)` / `) else (` / `) else if ... (` counting nested brackets, the last line "
              "exits with the code in _e - the lines of the script from the first program line on run to exit code 0 (normal end) or 1 (panic) with the printed lines of the source semantics; "
              "the tree is proved sound for the lines (Lemmas/SemBLinesSound), well-formedness of the tree and resolution of every construct label are proved for every script of the fragment "
-             "(Lemmas/SemBLabels, from the invariant behind C16.batch_construct_labels_unique); LRun is deterministic and its interpreter lrun sound (batch_lines_outcome_unique). NOT proved: "
-             "functions, slices, string operations, switch / range (known findings); that the start code leaves the start store and jumps over the helper routines; that cmd.exe reads the "
+             "(Lemmas/SemBLabels, from the invariant behind C16.batch_construct_labels_unique); LRun is deterministic and its interpreter lrun sound and complete (batch_lines_outcome_unique, "
+             "line_semantics_is_what_lrun_computes). WHOLE SCRIPT (batch_whole_script_preserves_scalar_semantics): from the FIRST line of the script and the EMPTY store - @echo off, "
+             "setlocal, set _e=0, the LF definition, the jump over the echo routine, the program, :end, exit /B %_e% - LRun reaches exit code 0 / 1 with the printed lines of the source "
+             "semantics; nothing but compile, Src32.runProgram and LRun in the statement. NOT proved: "
+             "functions, slices, string operations, switch / range (known findings); that cmd.exe reads the "
              "rendered text as these lines - the line-level semantics (lrun), the tree semantics, the program-counter machine Sem/Cmd.runPC, lib/cmdsim.py on the rendered text and the 32-bit "
              "reference are compared on every scalar program of every run. "
              "Structure (Props/C05.lean), for every program without any hypothesis: every statement leaves parenthesis depth and the heights of the if/loop/"
